@@ -267,6 +267,86 @@ func scenario(name string, seq []string, stopAfter int, senders int, bound int, 
 	return e1.Scenario{Name: name, Bound: bound, Body: body, Check: check, Opt: vs.Options{Horizon: 3000}}
 }
 
+// restartScenario: a second Listen on the same client while the first one is still winding down.
+// Listener 1 has a slow OnEvent (it takes 0.5 T); two events arrive at 0.1 T, so at 0.2 T, when
+// listener 1 is told to stop, its callback is busy with the first and the receive loop is waiting to
+// hand over the second. At `at` another thread calls Listen again on the same client (and stops it
+// at 1.5 T). Listener 1 must still come to an end, with both of its events delivered once; listener
+// 2 must return nil as well (or fail to bind while listener 1 still holds the address).
+type slowListener struct {
+	listener
+	delay time.Duration
+}
+
+func (l *slowListener) OnEvent(s *types.Status) {
+	l.listener.OnEvent(s)
+	vs.Sleep(l.delay)
+}
+
+func restartScenario(at time.Duration, bound int) e1.Scenario {
+	var l1 *slowListener
+	var l2 *listener
+	var ret1, ret2 error
+	var done1, done2 bool
+	body := func() {
+		l1, l2 = &slowListener{delay: T / 2}, &listener{}
+		done1, done2, ret1, ret2 = false, false, nil, nil
+		c1, c2 := l1, l2
+		vs.Net().Env = &farm.Farm{}
+		u := uhppote.NewUHPPOTE(types.BindAddr{}, types.BroadcastAddr{}, types.ListenAddrFrom(netip.MustParseAddr("0.0.0.0"), lport), T, nil, false)
+		for k := 0; k < 2; k++ {
+			d := datagram("valid", k)
+			vs.After(T/10, func() { vs.Net().DeliverUDP("192.168.1.100:60000", fmt.Sprintf("192.168.1.2:%d", lport), d) })
+		}
+		q1, q2 := make(chan os.Signal, 1), make(chan os.Signal, 1)
+		vs.GoNamed("stopper1", func() { vs.Sleep(2 * T / 10); vs.Send(q1, os.Signal(os.Interrupt)) })
+		vs.GoNamed("stopper2", func() { vs.Sleep(15 * T / 10); vs.Send(q2, os.Signal(os.Interrupt)) })
+		var wg vs.WaitGroup
+		wg.Add(1)
+		vs.GoNamed("second-listen", func() {
+			defer wg.Done()
+			vs.Sleep(at)
+			ret2 = u.Listen(c2, q2)
+			done2 = true
+		})
+		ret1 = u.Listen(c1, q1)
+		done1 = true
+		wg.Wait()
+	}
+	check := func(e *vs.Exec) (string, []e1.Viol) {
+		viols := e1.Generic(e)
+		for _, r := range e.Races {
+			viols = append(viols, e1.Viol{Key: "race", What: "data race: " + r})
+		}
+		if e.Abort != "" {
+			return e.Abort, viols
+		}
+		add := func(key, what string) {
+			viols = append(viols, e1.Viol{Key: "restart/" + key, What: fmt.Sprintf("%s (second Listen on the same client at %v, first listener stopped at 0.2 T with its callback busy)", what, at)})
+		}
+		if !done1 || ret1 != nil {
+			add("first-listener-did-not-return-nil", fmt.Sprintf("returned=%v err=%v", done1, ret1))
+		}
+		if !done2 {
+			add("second-listener-did-not-return", "")
+		}
+		ev1 := 0
+		for _, c := range l1.calls {
+			if c.kind == "event" {
+				ev1++
+			}
+		}
+		if ev1 != 2 {
+			add("first-listener-events", fmt.Sprintf("%d events delivered to the first listener, 2 were read before it was stopped", ev1))
+		}
+		if open := vs.Net().OpenSockets(); len(open) > 0 {
+			add("socket-leak", fmt.Sprint(open))
+		}
+		return fmt.Sprintf("restart first=%v/%d second=%v", ret1 == nil, ev1, ret2 == nil), viols
+	}
+	return e1.Scenario{Name: fmt.Sprintf("restart-while-callback-busy/second-listen@%v", at), Bound: bound, Body: body, Check: check, Opt: vs.Options{Horizon: 3000}}
+}
+
 func sequences(alphabet []string, maxLen int) [][]string {
 	out := [][]string{{}}
 	frontier := [][]string{{}}
@@ -383,6 +463,14 @@ func main() {
 		hs.Shards = 4
 		scenarios = append(scenarios, hs)
 	}
+	// a second Listen on the same client while the first is winding down with its callback busy
+	for _, at := range []time.Duration{15 * T / 100, 25 * T / 100, 3 * T / 10, 65 * T / 100} {
+		b := 1
+		if r.Thorough() {
+			b = 2
+		}
+		scenarios = append(scenarios, restartScenario(at, b))
+	}
 	// (c) start/stop cycles on the same address
 	for _, seq := range sequences([]string{"valid", "bad-boolean"}, 1) {
 		for stop := 0; stop <= len(seq); stop++ {
@@ -396,7 +484,7 @@ func main() {
 	if r.Worker == "" && r.Replay == "" {
 		e1.Conformance(r)
 	}
-	r.Rule(fmt.Sprintf("(a) every datagram-class sequence of length <= %d over %d classes x stop signal after every prefix x 1-2 senders (the two-sender variants use a client built with debug = true) x OnError returning true / false (an environment choice per error), preemption bound 0; (b) every sequence of length <= %d over {valid, v6.62, malformed} x stop after every prefix under ALL interleavings (no preemption bound), and as a burst (datagrams and stop signal in one instant) under ALL interleavings for length 1 (thorough: length <= 2) and with <= %d preemptions beyond; (c) two consecutive Listen runs on the same address under all interleavings; (d) a burst of 300 (thorough 1100) valid events with at most one non-default choice, and 12-event sequences (burst and spaced, valid and mixed) with at most 2 non-default scheduling choices of any kind. distinct = distinct (datagrams read, events, errors) labels", contentLen, len(classes), schedLen, schedBound))
+	r.Rule(fmt.Sprintf("(a) every datagram-class sequence of length <= %d over %d classes x stop signal after every prefix x 1-2 senders (the two-sender variants use a client built with debug = true) x OnError returning true / false (an environment choice per error), preemption bound 0; (b) every sequence of length <= %d over {valid, v6.62, malformed} x stop after every prefix under ALL interleavings (no preemption bound), and as a burst (datagrams and stop signal in one instant) under ALL interleavings for length 1 (thorough: length <= 2) and with <= %d preemptions beyond; (c) two consecutive Listen runs on the same address under all interleavings, and a second Listen on the same client started (at 4 instants) while the first, stopped with its callback busy, is still winding down; (d) a burst of 300 (thorough 1100) valid events with at most one non-default choice, and 12-event sequences (burst and spaced, valid and mixed) with at most 2 non-default scheduling choices of any kind. distinct = distinct (datagrams read, events, errors) labels", contentLen, len(classes), schedLen, schedBound))
 	r.Assume("a datagram counts as received when a read on the listen socket returned it (datagrams still queued when the socket is closed were never received)")
 	r.Assume("calendar-invalid (but BCD) timestamps are outside the alphabet: the library documents decoding them as 'no value'")
 	r.Finish()
